@@ -61,6 +61,8 @@ def is_pure(e):
     if isinstance(e, ast.IfExp):
         return is_pure(e.test) and is_pure(e.body) and is_pure(e.orelse)
     if isinstance(e, (ast.Tuple, ast.List, ast.Set)):
+        if any(isinstance(x, ast.Starred) and not _builtin_container(x.value) for x in e.elts):
+            return False        # [*it] runs through it
         return all(is_pure(x) for x in e.elts)
     if isinstance(e, ast.Dict):
         return all(is_pure(k) for k in e.keys) and all(is_pure(v) for v in e.values)
@@ -80,7 +82,8 @@ def is_pure(e):
             return e.func.id in PURE_FUNCS and e.func.id not in SHADOWED[0] and args_ok
         if isinstance(e.func, ast.Attribute):
             # a method name counts as the standard library's only if no function of the analysed code base has that name
-            return e.func.attr in PURE_METHODS and (builtin_only(e.func.attr) or e.func.attr in ALWAYS_STDLIB and _stdlib_receiver(e.func.value)) \
+            return e.func.attr in PURE_METHODS and (builtin_only(e.func.attr) or e.func.attr in ALWAYS_STDLIB and _stdlib_receiver(e.func.value)
+                                                    or _builtin_container(e.func.value)) \
                 and is_pure(e.func.value) and args_ok
         return False
     if isinstance(e, ast.ListComp):
@@ -91,11 +94,38 @@ def is_pure(e):
     return False
 
 
-NONRAISING_FUNCS = {'len', 'isinstance', 'bool', 'id', 'type', 'repr', 'str', 'hasattr', 'callable', 'issubclass', 'enumerate', 'zip', 'list', 'tuple', 'set', 'dict',
-                    'frozenset', 'sorted', 'reversed', 'range', 'slice', 'abs'}
-NONRAISING_METHODS = {'strip', 'lstrip', 'rstrip', 'lower', 'upper', 'split', 'rsplit', 'startswith', 'endswith', 'find', 'rfind', 'replace', 'keys', 'values', 'items',
+NONRAISING_FUNCS = {'len', 'isinstance', 'bool', 'id', 'type', 'repr', 'hasattr', 'callable', 'issubclass', 'abs', 'slice'}
+# ... running through their argument can fail when that is an arbitrary iterable (a reader, a generator): fine on containers only
+NONRAISING_ON_CONTAINERS = {'enumerate', 'zip', 'list', 'tuple', 'set', 'dict', 'frozenset', 'sorted', 'reversed'}
+NONRAISING_METHODS = {'strip', 'lstrip', 'rstrip', 'lower', 'upper', 'startswith', 'endswith', 'find', 'rfind', 'replace', 'keys', 'values', 'items',
                       'count', 'match', 'search', 'fullmatch', 'groups', 'center', 'ljust', 'rjust', 'isdigit', 'isalpha', 'isprintable', 'isspace', 'copy', 'splitlines',
                       'partition', 'title', 'capitalize', 'zfill', 'bit_length', 'dirname', 'basename', 'splitext', 'get'}
+# set by canonical(): names of the function at hand that are compared with None / tested for truth (an attribute read through
+# them fails when they are None), and whether some handler of the function catches AttributeError (then any attribute read through
+# a name other than self is a possible failure that the code reckons with)
+NONE_TESTED = [frozenset()]
+NONE_TESTED_CHAINS = [frozenset()]
+ATTR_ERRORS_CAUGHT = [False]
+
+
+def cannot_fail(e):
+    """a value whose evaluation cannot fail whatever the data: a literal, a local / parameter, an attribute of self (one level),
+    comparisons / not / and / or / + - * of such"""
+    if isinstance(e, (ast.Constant, ast.Name)):
+        return True
+    if isinstance(e, ast.Attribute):
+        return isinstance(e.value, ast.Name) and e.value.id == 'self' and not ATTR_ERRORS_CAUGHT[0]
+    if isinstance(e, ast.UnaryOp):
+        return cannot_fail(e.operand)
+    if isinstance(e, ast.BoolOp):
+        return all(cannot_fail(v) for v in e.values)
+    if isinstance(e, ast.Compare):
+        return cannot_fail(e.left) and all(cannot_fail(c) for c in e.comparators)
+    if isinstance(e, ast.BinOp) and isinstance(e.op, (ast.Add, ast.Sub, ast.Mult, ast.BitAnd, ast.BitOr, ast.BitXor)):
+        return cannot_fail(e.left) and cannot_fail(e.right)
+    if isinstance(e, (ast.Tuple, ast.List)):
+        return all(cannot_fail(x) for x in e.elts)
+    return False
 
 
 def may_raise(e):
@@ -106,14 +136,35 @@ def may_raise(e):
             return True
         if isinstance(n, ast.BinOp) and isinstance(n.op, (ast.Div, ast.FloorDiv, ast.Mod)):
             return True
+        if isinstance(n, ast.BinOp) and isinstance(n.op, (ast.LShift, ast.RShift, ast.Pow)) \
+                and not (isinstance(n.right, ast.Constant) and type(n.right.value) is int and n.right.value >= 0):
+            return True         # a negative shift count / 0 ** -1
         if isinstance(n, ast.Call):
-            if isinstance(n.func, ast.Name) and n.func.id in NONRAISING_FUNCS:
+            if isinstance(n.func, ast.Name) and n.func.id in NONRAISING_FUNCS and not n.keywords:
+                continue
+            if isinstance(n.func, ast.Name) and n.func.id == 'str' and len(n.args) <= 1 and not n.keywords:
+                continue
+            if isinstance(n.func, ast.Name) and n.func.id == 'range' and len(n.args) <= 2 and not n.keywords:
+                continue
+            if isinstance(n.func, ast.Name) and n.func.id in NONRAISING_ON_CONTAINERS and not n.keywords \
+                    and all(_builtin_container(a) or isinstance(a, (ast.ListComp, ast.SetComp, ast.DictComp)) for a in n.args):
                 continue
             if isinstance(n.func, ast.Attribute) and n.func.attr in NONRAISING_METHODS:
+                continue
+            if isinstance(n.func, ast.Attribute) and n.func.attr in ('split', 'rsplit') and not n.args and not n.keywords:
                 continue
             return True
         if isinstance(n, (ast.Yield, ast.YieldFrom, ast.Await)):
             return True
+        if isinstance(n, ast.FormattedValue) and n.format_spec is not None:
+            return True         # f'{v:04d}' fails for a value of the wrong kind
+        if isinstance(n, ast.Attribute):
+            c = chain(n)
+            root = c[0] if c else None
+            if root is not None and (root != 'self' and root in NONE_TESTED[0] or ATTR_ERRORS_CAUGHT[0]):
+                return True     # read through a name that may be None / an object that may lack the attribute
+            if c is not None and len(c) >= 3 and c[:2] in NONE_TESTED_CHAINS[0]:
+                return True     # self.cur.pos where self.cur is compared with None somewhere
     return False
 
 
@@ -126,6 +177,22 @@ NOT_ITERATORS = [frozenset()]
 # builtin names rebound in the function at hand (parameters / locals called `type`, `format`, `len`, ...); set by canonical()
 SHADOWED = [frozenset()]
 ALWAYS_STDLIB = {'match', 'search', 'fullmatch', 'group', 'groups', 'pack', 'unpack', 'unpack_from', 'dirname', 'basename', 'splitext', 'join'}
+
+
+def _builtin_container(v):
+    """a receiver that is certainly a list / dict / set / tuple / str: a literal, a local every assignment of which binds one, a
+    module-level dict display, an attribute only ever bound to such values (the `sized` table)"""
+    if isinstance(v, ast.Constant) and isinstance(v.value, (str, bytes)):
+        return True
+    if isinstance(v, (ast.List, ast.Dict, ast.Set, ast.Tuple, ast.JoinedStr)):
+        return True
+    if isinstance(v, ast.Name):
+        return v.id in NOT_ITERATORS[0] and v.id not in _NUMERIC_LOCALS[0] or v.id in _DICTS[0]
+    c = chain(v) if isinstance(v, ast.Attribute) else None
+    return c is not None and c in _SIZED[0]
+
+
+_NUMERIC_LOCALS = [frozenset()]
 
 
 def _stdlib_receiver(v):
@@ -151,6 +218,9 @@ def consumes_name(e):
             a = a.value
         if isinstance(a, (ast.GeneratorExp, ast.ListComp, ast.SetComp, ast.DictComp)):
             a = a.generators[0].iter
+        if isinstance(a, ast.Attribute):
+            c = chain(a)
+            return c is not None and c not in _SIZED[0]         # an attribute that is not known to hold a container
         return isinstance(a, ast.Name) and a.id not in NOT_ITERATORS[0]
     if isinstance(e.func, ast.Name) and e.func.id in CONSUMERS:
         return any(bare(a) for a in e.args)
@@ -222,11 +292,21 @@ def read_chains(e):
             c = chain(x)
             if c is not None:
                 out.add(cut(c))
+                y = x
+                while isinstance(y, (ast.Attribute, ast.Subscript)):       # rows[i].name reads i as well
+                    if isinstance(y, ast.Subscript):
+                        rec(y.slice)
+                    y = y.value
                 return
         if isinstance(x, ast.Subscript):
             c = chain(x.value)
             if c is not None:
                 out.add(cut(c))
+                y = x.value
+                while isinstance(y, (ast.Attribute, ast.Subscript)):
+                    if isinstance(y, ast.Subscript):
+                        rec(y.slice)
+                    y = y.value
             else:
                 rec(x.value)
             rec(x.slice)
@@ -244,6 +324,9 @@ ALL_PROPS = [frozenset()]
 ALIASES = [()]
 
 
+LAMBDA_WRITES = [frozenset()]       # what the bodies of the lambdas of the function at hand may change (set by canonical)
+
+
 def _prefix(a, b):
     n = min(len(a), len(b))
     return a[:n] == b[:n]
@@ -254,6 +337,8 @@ def written_chains(st):
     that are not pure, whole-object arguments of calls that are not pure."""
     out = set()
     for n in ast.walk(st):
+        if isinstance(n, ast.AsyncFor):
+            out.add(('*',))        # the coroutine is suspended there: anything may change
         if isinstance(n, (ast.Assign, ast.AugAssign, ast.AnnAssign, ast.For, ast.AsyncFor)):
             tg = n.targets if isinstance(n, ast.Assign) else [n.target]
             for t in tg:
@@ -262,26 +347,49 @@ def written_chains(st):
                         c = chain(x if not isinstance(x, ast.Subscript) else x.value)
                         if c is not None:
                             out.add(c)
+                        else:
+                            out.add(('*',))     # a target that starts at a call (type(self).n, getattr(o, k).x): anything
         elif isinstance(n, ast.Delete):
             for t in n.targets:
                 c = chain(t if not isinstance(t, ast.Subscript) else t.value)
                 if c is not None:
                     out.add(c)
         elif isinstance(n, (ast.With, ast.AsyncWith)):
+            if isinstance(n, ast.AsyncWith):
+                out.add(('*',))        # the coroutine is suspended there: anything may change
             for it in n.items:
                 if it.optional_vars is not None:
                     c = chain(it.optional_vars)
                     if c is not None:
                         out.add(c)
+                # __enter__ / __exit__ are calls on the context manager
+                c = chain(it.context_expr) if isinstance(it.context_expr, (ast.Name, ast.Attribute, ast.Subscript)) else None
+                if c is not None:
+                    out.add(c)
+        elif isinstance(n, ast.AsyncFor):
+            out.add(('*',))
         elif isinstance(n, ast.NamedExpr):
             out.add((n.target.id,))
         elif isinstance(n, ast.ExceptHandler) and n.name:
             out.add((n.name,))
         elif isinstance(n, ast.Call) and not is_pure(n):
+            out |= LAMBDA_WRITES[0]          # a call may run a lambda of this function (handed over as a callback)
             if isinstance(n.func, ast.Attribute):
                 c = chain(n.func.value)
                 if c is not None:
                     out.add(c)
+                elif isinstance(n.func.value, (ast.BoolOp, ast.IfExp)):
+                    for br in (n.func.value.values if isinstance(n.func.value, ast.BoolOp) else [n.func.value.body, n.func.value.orelse]):
+                        c2 = chain(br) if isinstance(br, (ast.Name, ast.Attribute, ast.Subscript)) else None
+                        if c2 is not None:
+                            out.add(c2)
+                elif isinstance(n.func.value, ast.Call):
+                    # getattr(self, k).append(x), self.by_id.get(k).bump(): the object comes out of what the inner call names
+                    inner = n.func.value
+                    for a in ([inner.func.value] if isinstance(inner.func, ast.Attribute) else []) + list(inner.args):
+                        c2 = chain(a) if isinstance(a, (ast.Name, ast.Attribute, ast.Subscript)) else None
+                        if c2 is not None:
+                            out.add(c2)
             if isinstance(n.func, ast.Attribute) and n.func.attr == 'extend' and builtin_only('extend') and not consumes_name(n):
                 # list / bytearray / deque .extend only iterates its argument (no class of the package defines `extend`); an
                 # argument that may be an iterator is used up by it
@@ -302,6 +410,10 @@ def written_chains(st):
                     arg_chains(a.body)
                     arg_chains(a.orelse)
                     return
+                if isinstance(a, ast.BoolOp):
+                    for x in a.values:
+                        arg_chains(x)
+                    return
                 c = chain(a) if isinstance(a, (ast.Name, ast.Attribute, ast.Subscript)) else None
                 if c is not None:
                     out.add(c)
@@ -318,8 +430,8 @@ def written_chains(st):
                     a = a.value
                 if isinstance(a, (ast.GeneratorExp, ast.ListComp, ast.SetComp, ast.DictComp)):
                     a = a.generators[0].iter
-                if isinstance(a, ast.Name):
-                    out.add((a.id,))
+                if isinstance(a, (ast.Name, ast.Attribute)) and chain(a) is not None:
+                    out.add(chain(a))
         elif isinstance(n, (ast.Yield, ast.YieldFrom, ast.Await)):
             out.add(('*',))        # control leaves the function: anything may change
     return out
@@ -329,13 +441,13 @@ def _with_aliases(w):
     """written chains plus, for each chain written through a name / attribute that may be another name for an object, that
     object as a whole"""
     out = set(w)
-    for _ in range(3):
+    for _ in range(12):
         more = set()
         for a in out:
             for p, q in ALIASES[0]:
-                if a[:len(p)] == p and q not in out:
+                if _prefix(a, p) and q not in out:
                     more.add(q)
-                if a[:len(q)] == q and p not in out:
+                if _prefix(a, q) and p not in out:
                     more.add(p)
         if not more:
             break
@@ -346,12 +458,25 @@ def _with_aliases(w):
 MUTABLE_GLOBALS = [frozenset()]     # names some function of the module declares `global` (ctx['mutable_globals'])
 
 
+def _cut_written(w):
+    """written chains cut where the written thing is more than the named attribute: `__dict__` / `__class__` (the object's whole
+    state / its class attributes, read through the instance), a property (its setter may store anywhere in the object)"""
+    out = set()
+    for c in w:
+        for i, part in enumerate(c):
+            if i and (part in ('__dict__', '__class__') or part in ALL_PROPS[0]):
+                c = c[:i]
+                break
+        out.add(c)
+    return out
+
+
+
 def interferes(st, reads):
     w = written_chains(st)
     if ('*',) in w:
         return True
-    w = {c[:c.index('__dict__')] if '__dict__' in c else c for c in w}
-    w = _with_aliases(w)
+    w = _with_aliases(_cut_written(w))
     if MUTABLE_GLOBALS[0] and any(r[0] in MUTABLE_GLOBALS[0] for r in reads) and any(isinstance(n, ast.Call) and not is_pure(n) for n in ast.walk(st)):
         return True         # any call may run a function that rebinds such a name
     return any(_prefix(a, b) for a in w for b in reads)
@@ -404,7 +529,7 @@ _CONSUMERS = ('any', 'all', 'sum', 'min', 'max', 'tuple', 'list', 'sorted', 'set
 def _has_nested_scope_use(func, name):
     # a generator handed straight to a function that consumes it at once is evaluated there and then: not a deferred scope
     immediate = {id(c.args[0]) for c in ast.walk(func) if isinstance(c, ast.Call) and len(c.args) == 1 and not c.keywords and isinstance(c.args[0], ast.GeneratorExp)
-                 and (isinstance(c.func, ast.Name) and c.func.id in _CONSUMERS or isinstance(c.func, ast.Attribute) and c.func.attr == 'join')}
+                 and (isinstance(c.func, ast.Name) and c.func.id in _CONSUMERS or isinstance(c.func, ast.Attribute) and c.func.attr == 'join' and (builtin_only('join') or _stdlib_receiver(c.func.value)))}
     for n in ast.walk(func):
         if n is not func and isinstance(n, (ast.FunctionDef, ast.AsyncFunctionDef, ast.Lambda, ast.GeneratorExp, ast.ClassDef)) and id(n) not in immediate:
             if _name_nodes(n, name):
@@ -525,6 +650,8 @@ def _pasteable(h):
         name = n.attr if isinstance(n, ast.Attribute) else n.id if isinstance(n, ast.Name) else None
         if name and name.startswith('__') and not name.endswith('__'):
             return False
+        if isinstance(n, (ast.Import, ast.ImportFrom, ast.Global, ast.Nonlocal)):
+            return False
     return True
 
 
@@ -539,6 +666,8 @@ def _caller_bound(func):
     out = set(_params(func)) | {n.id for n in ast.walk(func) if isinstance(n, ast.Name) and isinstance(n.ctx, (ast.Store, ast.Del))}
     out |= {n.name for n in ast.walk(func) if isinstance(n, ast.ExceptHandler) and n.name}
     out |= {(a.asname or a.name).split('.')[0] for n in ast.walk(func) if isinstance(n, (ast.Import, ast.ImportFrom)) for a in n.names}
+    out |= {n.name for n in ast.walk(func) if n is not func and isinstance(n, (ast.FunctionDef, ast.AsyncFunctionDef, ast.ClassDef))}
+    out |= {a.arg for n in ast.walk(func) if isinstance(n, ast.Lambda) for a in ast.walk(n.args) if isinstance(a, ast.arg)}
     return out
 
 
@@ -552,9 +681,15 @@ def _helper_call_name(call, helpers, bound):
     f = call.func
     if isinstance(f, ast.Name) and f.id in helpers and not helpers[f.id][1] and f.id not in bound:
         name = f.id
-    elif isinstance(f, ast.Attribute) and isinstance(f.value, ast.Name) and f.attr in helpers and helpers[f.attr][1] \
-            and (f.value.id == 'self' and 'self' in bound or f.value.id == _CLASS[0] and _CLASS[0] and _CLASS[0] not in bound) and f.attr not in _OTHER_METHODS[0]:
-        name = f.attr
+    elif isinstance(f, ast.Attribute) and isinstance(f.value, ast.Name) and f.attr in helpers and helpers[f.attr][1] and f.attr not in _OTHER_METHODS[0]:
+        hh = helpers[f.attr][0]
+        is_static = any(isinstance(d, ast.Name) and d.id == 'staticmethod' for d in hh.decorator_list)
+        if f.value.id == 'self' and 'self' in bound and _SELF_FIRST[0] and (is_static or hh.args.args and hh.args.args[0].arg == 'self'):
+            name = f.attr
+        elif is_static and f.value.id == _CLASS[0] and _CLASS[0] and _CLASS[0] not in bound:
+            name = f.attr
+        else:
+            return None
     else:
         return None
     h = helpers[name][0]
@@ -616,12 +751,17 @@ def expression_helper(h, is_method):
         n.__dict__.pop('_parent', None)
         n.__dict__.pop('_noops', None)
     cnt = [0]
-    for _ in range(6):
-        a = assignments_to_ifexp(f)
-        b = inline_temps(f)
-        c = drop_dead_locals(f)
-        if not (a or b or c):
-            break
+    _sv = (NOT_ITERATORS[0], ALIASES[0], NONE_TESTED[0], LAMBDA_WRITES[0])
+    NOT_ITERATORS[0], ALIASES[0], NONE_TESTED[0], LAMBDA_WRITES[0] = frozenset(), function_aliases(f), frozenset(_params(f)), frozenset()
+    try:
+        for _ in range(6):
+            a = assignments_to_ifexp(f)
+            b = inline_temps(f)
+            c = drop_dead_locals(f)
+            if not (a or b or c):
+                break
+    finally:
+        NOT_ITERATORS[0], ALIASES[0], NONE_TESTED[0], LAMBDA_WRITES[0] = _sv
     body = [s_ for s_ in f.body if not isinstance(s_, ast.Pass)]
 
     def to_expr(stmts):
@@ -665,7 +805,7 @@ def inline_expression_helpers(func, helpers):
     def simple(a):
         # written into the helper's expression an argument may be evaluated twice, later, or not at all: only names, literals
         # and attribute chains (which neither fail nor change anything) may take that place
-        return isinstance(a, ast.Constant) or isinstance(a, (ast.Name, ast.Attribute)) and chain(a) is not None and not any(isinstance(x, ast.Subscript) for x in ast.walk(a))
+        return cannot_fail(a)
 
     class T(ast.NodeTransformer):
         def visit_Lambda(self, node):
@@ -719,13 +859,9 @@ def hoist_helper_calls(func, helpers, counter):
                 h = helpers[hname][0]
                 static = any(isinstance(d, ast.Name) and d.id == 'staticmethod' for d in h.decorator_list)
                 # what the call may change: its whole-object arguments and, unless static, its receiver
-                w = set()
+                w = set(written_chains(ast.Expr(value=ast.Call(func=ast.Name(id='_unknown_', ctx=ast.Load()), args=list(x.args), keywords=list(x.keywords)))))
                 if isinstance(f, ast.Attribute) and not static:
                     w.add(chain(f.value))
-                for a_ in list(x.args) + [k_.value for k_ in x.keywords]:
-                    c_ = chain(a_) if isinstance(a_, (ast.Name, ast.Attribute, ast.Subscript)) else None
-                    if c_ is not None:
-                        w.add(c_)
                 # ... and whatever its body names as changed (module-level objects, class attributes)
                 hp = set(_params(h))
                 for hs in h.body:
@@ -736,8 +872,16 @@ def hoist_helper_calls(func, helpers, counter):
                             w.add(('*',))
                 if ('*',) in w:
                     break
+                _sa = ALIASES[0]
+                ALIASES[0] = tuple(_sa) + tuple(function_aliases(h))
+                try:
+                    w = _with_aliases(_cut_written(w))
+                finally:
+                    ALIASES[0] = _sa
 
                 def harmless(y):
+                    if isinstance(y, ast.Name) and y.id in MUTABLE_GLOBALS[0]:
+                        return False
                     if isinstance(y, (ast.Name, ast.Constant)):
                         return True
                     if isinstance(y, ast.Attribute):
@@ -897,9 +1041,10 @@ def _fstring_of_format(call):
     if used != list(range(len(call.args))):
         return None
     fields = [p_ for p_ in parts if p_[1] is not None]
-    for i, a in enumerate(call.args):
-        if not is_pure(a) and any(sp for _, _, sp, _ in fields[:i]):
-            return None
+    if not all(is_pure(a) for a in call.args):
+        return None         # format() converts after all arguments are evaluated, the f-string converts as it goes
+    if any(sp for _, _, sp, _ in fields) and any(may_raise(a) for a in call.args):
+        return None
     return ast.JoinedStr(values=vals)
 
 
@@ -1139,7 +1284,9 @@ def _impure_before(st, node, moved=None):
     exprs = _stmt_exprs(st)
     if exprs is None or isinstance(st, ast.While):
         return True
-    wr = _with_aliases(written_chains(ast.Expr(value=moved))) if moved is not None else set()
+    if isinstance(st, (ast.With, ast.AsyncWith)) and not any(y is node for y in ast.walk(st.items[0].context_expr)):
+        return True         # an earlier item of the with statement has been entered by then
+    wr = _with_aliases(_cut_written(written_chains(ast.Expr(value=moved)))) if moved is not None else set()
     for e in exprs:
         for x in eval_order(e):
             if x is node:
@@ -1148,6 +1295,8 @@ def _impure_before(st, node, moved=None):
                 continue            # an ancestor of node: evaluated after it
             if isinstance(x, (ast.Call, ast.Yield, ast.YieldFrom, ast.Await, ast.NamedExpr)) and not is_pure(x):
                 return True
+            if moved is not None and (isinstance(x, ast.Subscript) and not isinstance(x.slice, ast.Slice) or isinstance(x, (ast.Call, ast.BinOp, ast.Attribute, ast.FormattedValue)) and may_raise(x)):
+                return True         # were that to fail, the moved call would no longer have happened
             if wr and isinstance(x, (ast.Name, ast.Attribute, ast.Subscript)) and isinstance(getattr(x, 'ctx', None), ast.Load):
                 if ('*',) in wr:
                     return True
@@ -1215,6 +1364,8 @@ def _split_ifexp(func):
                     break
             if target is None or _impure_before(st, target):
                 continue
+            if may_raise(target.test) and _impure_before(st, target, ast.Call(func=ast.Name(id='_probe_', ctx=ast.Load()), args=[], keywords=[])):
+                continue        # a test that can fail would move in front of something else that can
             a = copy.deepcopy(st)
             # locate the copy's corresponding node by position in walk order
             idx = [k for k, n in enumerate(ast.walk(st)) if n is target][0]
@@ -1355,6 +1506,7 @@ def assignments_to_ifexp(func):
     `t = A if c else B`; `a, b = x, y` (no target read on the right) becomes `a = x; b = y`; `a = b = v` (v a constant)
     becomes two assignments."""
     changed = False
+    in_try = _in_try(func)
     for owner, block in _all_blocks(func):
         i = 0
         while i < len(block):
@@ -1373,7 +1525,7 @@ def assignments_to_ifexp(func):
                     and len(st.targets[0].elts) == len(st.value.elts) and all(isinstance(t, ast.Name) or isinstance(t, ast.Attribute) and chain(t) for t in st.targets[0].elts):
                 tn = {t.id for t in st.targets[0].elts if isinstance(t, ast.Name)}
                 tc = {chain(t) for t in st.targets[0].elts}
-                attr_ok = all(isinstance(t, ast.Name) for t in st.targets[0].elts) or (
+                attr_ok = (all(isinstance(t, ast.Name) for t in st.targets[0].elts) and (id(st) not in in_try or not any(may_raise(v) or not is_pure(v) for v in st.value.elts))) or (
                     all(is_pure(v) and not may_raise(v) for v in st.value.elts) and not any(_prefix(r, c) for v in st.value.elts for r in read_chains(v) for c in tc))
                 if attr_ok and not any(isinstance(n, ast.Name) and n.id in tn for v in st.value.elts for n in ast.walk(v)) and not any(isinstance(v, ast.Starred) for v in st.value.elts):
                     new = [ast.Assign(targets=[t], value=v) for t, v in zip(st.targets[0].elts, st.value.elts)]
@@ -1416,7 +1568,7 @@ def assignments_to_ifexp(func):
                 if ta is not None and not st.orelse and i > 0:
                     prev = block[i - 1]
                     if isinstance(prev, ast.Assign) and len(prev.targets) == 1 and isinstance(prev.targets[0], ast.Name) and prev.targets[0].id == ta and is_pure(prev.value) \
-                            and not may_raise(prev.value) \
+                            and cannot_fail(prev.value) and (is_pure(st.test) and not may_raise(st.test) or id(st) not in in_try) \
                             and not any(isinstance(n, ast.Name) and n.id == ta for n in ast.walk(st.test)) and not any(isinstance(n, ast.Name) and n.id == ta for n in ast.walk(va)) \
                             and not interferes(ast.Expr(value=st.test), read_chains(prev.value)):
                         new = ast.Assign(targets=[ast.Name(id=ta, ctx=ast.Store())], value=ast.IfExp(test=st.test, body=va, orelse=prev.value))
@@ -1494,7 +1646,7 @@ def sink_constant_inits(func):
                                                     or isinstance(st.value, ast.Call) and isinstance(st.value.func, ast.Name) and st.value.func.id in ('set', 'dict', 'list')
                                                     and not st.value.args and not st.value.keywords)
             if isinstance(st, ast.Assign) and len(st.targets) == 1 and isinstance(st.targets[0], ast.Name) and (isinstance(st.value, ast.Constant) or empty) and st.targets[0].id not in params \
-                    and st.targets[0].id not in in_handlers:
+                    and st.targets[0].id not in in_handlers and not _has_nested_scope_use(func, st.targets[0].id):
                 x = st.targets[0].id
                 j = None
                 for k in range(i + 1, len(block)):
@@ -1594,7 +1746,7 @@ def sink_into_branches(func):
             st, nx = block[i], block[i + 1]
             if isinstance(st, ast.Assign) and len(st.targets) == 1 and isinstance(st.targets[0], ast.Name) and isinstance(nx, ast.If) and nx.orelse:
                 t = st.targets[0].id
-                if t not in params and len(stores.get(t, [])) == 1 and not is_pure(st.value) and not _has_nested_scope_use(func, t) and is_pure(nx.test) \
+                if t not in params and len(stores.get(t, [])) == 1 and not is_pure(st.value) and not _has_nested_scope_use(func, t) and is_pure(nx.test) and not may_raise(nx.test) \
                         and not _name_nodes(nx.test, t) and not interferes(ast.Expr(value=st.value), read_chains(nx.test)) \
                         and len(_name_nodes(ast.Module(body=nx.body, type_ignores=[]), t)) == 1 and len(_name_nodes(ast.Module(body=nx.orelse, type_ignores=[]), t)) == 1 \
                         and len(_name_nodes(nx.body[0], t)) == 1 and len(_name_nodes(nx.orelse[0], t)) == 1 \
@@ -1634,7 +1786,7 @@ def try_keyerror_idioms(func):
                 # D[k] with D a module-level dict display or an attribute only ever bound to containers, k a name / attribute /
                 # literal: the lookup itself is then the only thing that can raise KeyError, and D has no __missing__
                 c = chain(sub.value) if isinstance(sub.value, (ast.Name, ast.Attribute)) else None
-                return c is not None and (c in _SIZED[0] or len(c) == 1 and c[0] in _DICTS[0]) and \
+                return c is not None and (c in _SIZED[0] and c not in _SEQS[0] or len(c) == 1 and c[0] in _DICTS[0]) and \
                     (isinstance(sub.slice, ast.Constant) or isinstance(sub.slice, (ast.Name, ast.Attribute)) and chain(sub.slice) is not None)
             if isinstance(b, ast.Assign) and isinstance(h, ast.Assign) and len(b.targets) == 1 and len(h.targets) == 1 and isinstance(b.targets[0], ast.Name) \
                     and ast.dump(b.targets[0]) == ast.dump(h.targets[0]) and isinstance(b.value, ast.Subscript) and is_pure(b.value) and plain(b.value) \
@@ -1642,7 +1794,7 @@ def try_keyerror_idioms(func):
                 new = ast.Assign(targets=b.targets, value=ast.Call(func=ast.Attribute(value=b.value.value, attr='get', ctx=ast.Load()), args=[b.value.slice], keywords=[]))
             elif isinstance(b, ast.Expr) and isinstance(b.value, ast.Call) and isinstance(b.value.func, ast.Attribute) and b.value.func.attr == 'append' \
                     and isinstance(b.value.func.value, ast.Subscript) and len(b.value.args) == 1 and is_pure(b.value.args[0]) and is_pure(b.value.func.value) \
-                    and plain(b.value.func.value) and not may_raise(b.value.args[0]) \
+                    and plain(b.value.func.value) and cannot_fail(b.value.args[0]) \
                     and isinstance(h, ast.Assign) and len(h.targets) == 1 and ast.dump(h.targets[0]).replace('Store()', 'Load()') == ast.dump(b.value.func.value) \
                     and isinstance(h.value, ast.List) and len(h.value.elts) == 1 and ast.dump(h.value.elts[0]) == ast.dump(b.value.args[0]):
                 sub = b.value.func.value
@@ -1691,6 +1843,7 @@ def _reorderable(st):
         # (the object whose attribute is set is only referred to: a bare name there reads nothing another statement writes)
         return read_chains(st.value) | (read_chains(base) if base is not None and not isinstance(base, ast.Name) else set()), {chain(st.targets[0])}
     if isinstance(st, ast.Expr) and isinstance(st.value, ast.Call) and isinstance(st.value.func, ast.Attribute) and st.value.func.attr in ('append', 'add', 'extend', 'update', 'clear') \
+            and (builtin_only(st.value.func.attr) or _builtin_container(st.value.func.value)) \
             and chain(st.value.func.value) and len(chain(st.value.func.value)) >= 2 and not st.value.keywords and all(is_pure(a) and not may_raise(a) for a in st.value.args) \
             and not consumes_name(st.value):
         rd = set()
@@ -1719,6 +1872,7 @@ def sort_independent_runs(func):
                 if rw is None:
                     break
                 ok = True
+                rw = (rw[0], _with_aliases(_cut_written(rw[1])))
                 for (_s, r2, w2) in run:
                     if any(_prefix(a, b) for a in rw[1] for b in (r2 | w2)) or any(_prefix(a, b) for a in w2 for b in rw[0]):
                         ok = False
@@ -1970,6 +2124,7 @@ def _between(func, def_stmt, use_node):
                 out.append(ast.Expr(value=e))
             if isinstance(st, (ast.With, ast.AsyncWith)):
                 for it in st.items:
+                    out.append(ast.Expr(value=ast.Call(func=ast.Attribute(value=it.context_expr, attr='__enter__', ctx=ast.Load()), args=[], keywords=[])))
                     if it.optional_vars is not None:
                         out.append(ast.Assign(targets=[it.optional_vars], value=ast.Constant(value=None)))
         else:
@@ -1991,6 +2146,26 @@ def _between(func, def_stmt, use_node):
     return out
 
 
+def _numeric(e):
+    """visibly a number: built from numeric literals, len / int / float / ord / abs / round, shifts and masks, and arithmetic on
+    those (one numeric operand of + - * makes the other one numeric too, or the operation fails)"""
+    if isinstance(e, ast.Constant):
+        return type(e.value) in (int, float)
+    if isinstance(e, ast.Call) and isinstance(e.func, ast.Name) and e.func.id in ('len', 'int', 'float', 'ord', 'abs', 'round'):
+        return True
+    if isinstance(e, ast.BinOp) and isinstance(e.op, (ast.LShift, ast.RShift, ast.FloorDiv, ast.Div, ast.Mod, ast.Pow)):
+        return not (isinstance(e.op, ast.Mod) and not _numeric(e.left))
+    if isinstance(e, ast.BinOp) and isinstance(e.op, (ast.Add, ast.Sub)):
+        return _numeric(e.left) or _numeric(e.right)
+    if isinstance(e, ast.BinOp) and isinstance(e.op, ast.Mult):
+        return _numeric(e.left) and _numeric(e.right)
+    if isinstance(e, ast.BinOp):
+        return _intlike(e.left) or _intlike(e.right)
+    if isinstance(e, ast.UnaryOp):
+        return _numeric(e.operand)
+    return False
+
+
 def _allocates(e):
     """the value is a new mutable object: its identity matters, it cannot be written out twice"""
     if isinstance(e, (ast.List, ast.Dict, ast.Set, ast.ListComp, ast.SetComp, ast.DictComp)):
@@ -2003,6 +2178,12 @@ def _allocates(e):
         return True
     if isinstance(e, ast.BinOp) and isinstance(e.op, (ast.Mult, ast.Add)) and (_allocates(e.left) or _allocates(e.right)):
         return True         # [0] * n, [a] + rest
+    if isinstance(e, ast.BinOp) and isinstance(e.op, (ast.Add, ast.Mult, ast.BitOr, ast.BitAnd, ast.BitXor, ast.Sub)) and not _numeric(e):
+        return True         # a + b, row * n, a | b of lists / sets / arrays are new objects
+    if isinstance(e, ast.UnaryOp) and not isinstance(e.op, ast.Not) and not _numeric(e.operand):
+        return True
+    if isinstance(e, ast.Call) and any(_allocates(a) for a in list(e.args) + [k.value for k in e.keywords]):
+        return True         # d.get(k, [])
     if isinstance(e, ast.Subscript) and isinstance(e.slice, ast.Slice):
         return True         # a slice of a list is a new list
     if isinstance(e, ast.IfExp):
@@ -2017,7 +2198,7 @@ def inline_temps(func):
         params, stores, loads = _defs_and_uses(func)
         progress = False
         for owner, block in _all_blocks(func):
-            for st in list(block):
+            for st in reversed(list(block)):        # later definitions first: values that can fail are put back in the order of their uses
                 if not (isinstance(st, ast.Assign) and len(st.targets) == 1 and isinstance(st.targets[0], ast.Name)):
                     continue
                 t = st.targets[0].id
@@ -2045,19 +2226,45 @@ def inline_temps(func):
                 reads = read_chains(st.value)
                 ok = True
                 if may_raise(st.value):
-                    # where (and whether) it fails must stay the same: one use, in a later statement of the same block, at a place
-                    # that is evaluated unconditionally, with nothing in between that changes state or can fail itself
-                    ok = len(uses) == 1
+                    # where (and whether) it fails must stay the same.  The first use stands in a later statement of the same
+                    # block at a place that is evaluated unconditionally; nothing in between changes state; a value in between
+                    # that can fail too is another such local whose own first use follows in that same statement (so the two
+                    # failures keep their order); every other use comes after the first one (by then the value is known to exist)
+                    ok = bool(uses)
+                    pos = {}
                     if ok:
-                        up = _stmt_path(func, uses[0])
-                        ok = up is not None and up[-1][0] is block and not isinstance(up[-1][2], (ast.While, ast.For, ast.AsyncFor)) \
-                            and any(x is uses[0] for e in (_stmt_exprs(up[-1][2]) or []) for x in eval_order(e))
+                        paths = [(_stmt_path(func, u), u) for u in uses]
+                        ok = all(p_ is not None and any(b_ is block for b_, _i, _s in p_) for p_, _u in paths)
                     if ok:
-                        for s_ in block[block.index(st) + 1:up[-1][1]]:
-                            if not (isinstance(s_, ast.Assign) and all(isinstance(t_, ast.Name) for t_ in s_.targets) and is_pure(s_.value) and not may_raise(s_.value)):
+                        def top(p_):
+                            return [i_ for b_, i_, _s in p_ if b_ is block][0]
+                        hdr = None
+                        first = min(paths, key=lambda pu: top(pu[0]))
+                        j = top(first[0])
+                        stj = block[j]
+                        hdr = [x for e in (_stmt_exprs(stj) or []) for x in eval_order(e)]
+                        in_hdr = [u for p_, u in paths if top(p_) == j and any(x is u for x in hdr)]
+                        ok = bool(in_hdr) and not isinstance(stj, (ast.While, ast.For, ast.AsyncFor)) and j > block.index(st)
+                        if ok:
+                            fu = min(in_hdr, key=lambda u: [k_ for k_, x in enumerate(hdr) if x is u][0])
+                            fpos = [k_ for k_, x in enumerate(hdr) if x is fu][0]
+                            if id(st) in _in_try(func) and j != block.index(st) + 1:
+                                ok = False      # an assignment in between would be seen (or not) by the handler
+                            for s_ in block[block.index(st) + 1:j]:
+                                if not (isinstance(s_, ast.Assign) and len(s_.targets) == 1 and isinstance(s_.targets[0], ast.Name) and is_pure(s_.value)):
+                                    ok = False
+                                elif may_raise(s_.value):
+                                    t2 = s_.targets[0].id
+                                    u2 = [k_ for k_, x in enumerate(hdr) if isinstance(x, ast.Name) and x.id == t2 and isinstance(x.ctx, ast.Load)]
+                                    if len(stores.get(t2, [])) != 1 or not u2 or min(u2) < fpos or any(_name_nodes(b2, t2) for b2 in block[block.index(s_) + 1:j]):
+                                        ok = False
+                            if _evaluated_before(stj, fu):
                                 ok = False
-                        if _evaluated_before(up[-1][2], uses[0]):
-                            ok = False
+                            # ... and nothing that can fail is evaluated in that statement before it
+                            anc = {id(y) for x in hdr if any(z is fu for z in ast.walk(x)) for y in [x]}
+                            for x in hdr[:fpos]:
+                                if id(x) not in anc and (isinstance(x, ast.Subscript) and not isinstance(x.slice, ast.Slice) or isinstance(x, (ast.Call, ast.BinOp)) and may_raise(x)):
+                                    ok = False
                 for u in uses if ok else []:
                     btw = _between(func, st, u)
                     if btw is None or any(interferes(s, reads) for s in btw):
@@ -2205,7 +2412,7 @@ def split_webs(func, counter):
         if isinstance(expr, ast.NamedExpr):
             # `(n := E)`: a definition that may or may not be reached (it can stand in a conditionally evaluated operand)
             uses_in(expr.value, env, bound)
-            if not bound:
+            if True:
                 d = (id(expr.target), expr.target.id)
                 def_nodes[d] = expr.target
                 env[expr.target.id] = env.get(expr.target.id, frozenset([(ENTRY, expr.target.id)])) | frozenset([d])
@@ -2413,6 +2620,7 @@ def copy_propagate(func):
     changed = False
     params, stores, loads = _defs_and_uses(func)
     hreads = _handler_read_names(func)
+    in_try = _in_try(func)
     for owner, block in _all_blocks(func):
         for i, st in enumerate(list(block)):
             if not (isinstance(st, ast.Assign) and len(st.targets) == 1 and isinstance(st.targets[0], ast.Name) and isinstance(st.value, ast.Name)):
@@ -2424,8 +2632,8 @@ def copy_propagate(func):
                 continue        # a module-level name: not this function's to rename
             if _has_nested_scope_use(func, x) or _has_nested_scope_use(func, p):
                 continue
-            if {x, p} & hreads:
-                continue
+            if {x, p} & hreads or id(st) in in_try:
+                continue        # (a raise that "always leaves" may be caught by the enclosing try, whose other parts still read p)
             inside = {id(n) for s_ in block[i:] for n in ast.walk(s_)}
             # every occurrence of x lies in this block from this statement on
             if any(id(n) not in inside for n in _name_nodes(func, x)):
@@ -2487,7 +2695,8 @@ def _is_boolean(e):
         return True
     if isinstance(e, ast.Call) and isinstance(e.func, ast.Name) and e.func.id in ('isinstance', 'hasattr', 'bool', 'callable', 'issubclass', 'all', 'any'):
         return True
-    if isinstance(e, ast.Call) and isinstance(e.func, ast.Attribute) and e.func.attr in ('startswith', 'endswith', 'isdigit', 'isalpha', 'isspace', 'isprintable', 'issubdtype'):
+    if isinstance(e, ast.Call) and isinstance(e.func, ast.Attribute) and e.func.attr in ('startswith', 'endswith', 'isdigit', 'isalpha', 'isspace', 'isprintable', 'issubdtype') \
+            and builtin_only(e.func.attr):
         return True
     return False
 
@@ -2546,7 +2755,8 @@ def cx(e):
         a, b = cx(e.left), cx(e.right)
         # operands change places only when neither has side effects; `|` only between things that are visibly integers
         # (for dicts the right operand wins)
-        if isinstance(e.op, _COMMUTE) and b < a and is_pure(e.left) and is_pure(e.right) and (not isinstance(e.op, ast.BitOr) or _intlike(e.left) or _intlike(e.right)):
+        if isinstance(e.op, _COMMUTE) and b < a and is_pure(e.left) and is_pure(e.right) and not (may_raise(e.left) and may_raise(e.right)) \
+                and (isinstance(e.op, ast.Mult) or _intlike(e.left) or _intlike(e.right)):
             a, b = b, a
         return f'({type(e.op).__name__} {a} {b})'
     if isinstance(e, ast.BoolOp):
@@ -2555,7 +2765,7 @@ def cx(e):
         if len(e.ops) == 1:
             op = type(e.ops[0])
             a, b = cx(e.left), cx(e.comparators[0])
-            both_pure = is_pure(e.left) and is_pure(e.comparators[0])
+            both_pure = is_pure(e.left) and is_pure(e.comparators[0]) and not (may_raise(e.left) and may_raise(e.comparators[0]))
             if op in _MIRROR and both_pure:
                 op = _MIRROR[op]
                 a, b = b, a
@@ -2571,11 +2781,12 @@ def cx(e):
         # iterating a mapping is iterating its keys
         return cx(ast.Call(func=e.func, args=[e.args[0].func.value], keywords=e.keywords))
     if isinstance(e, ast.Call) and isinstance(e.func, ast.Name) and e.func.id in ('sum', 'min', 'max', 'tuple', 'list', 'sorted', 'set', 'frozenset') \
-            and len(e.args) == 1 and not e.keywords and isinstance(e.args[0], ast.GeneratorExp):
+            and len(e.args) == 1 and not e.keywords and isinstance(e.args[0], ast.GeneratorExp) and is_pure(e.args[0].elt) and not may_raise(e.args[0].elt):
         # consumed completely and at once: the same as the list comprehension
         lc = ast.ListComp(elt=e.args[0].elt, generators=e.args[0].generators)
         return f'{e.func.id}({cx(lc)})'
-    if isinstance(e, ast.Call) and isinstance(e.func, ast.Attribute) and e.func.attr == 'join' and len(e.args) == 1 and not e.keywords and isinstance(e.args[0], ast.GeneratorExp):
+    if isinstance(e, ast.Call) and isinstance(e.func, ast.Attribute) and e.func.attr == 'join' and len(e.args) == 1 and not e.keywords and isinstance(e.args[0], ast.GeneratorExp) \
+            and (builtin_only('join') or _stdlib_receiver(e.func.value)) and is_pure(e.args[0].elt) and not may_raise(e.args[0].elt):
         lc = ast.ListComp(elt=e.args[0].elt, generators=e.args[0].generators)
         return f'{cx(e.func)}({cx(lc)})'
     if isinstance(e, ast.Call) and any(isinstance(a, ast.Starred) and (isinstance(a.value, ast.List) or isinstance(a.value, ast.BinOp) and isinstance(a.value.op, ast.Add)
@@ -2592,7 +2803,8 @@ def cx(e):
                 args.append(a)
         return cx(ast.Call(func=e.func, args=args, keywords=e.keywords))
     if isinstance(e, ast.Call) and not e.keywords and is_pure(e.func) and sum(isinstance(a, ast.IfExp) for a in e.args) == 1 \
-            and all(is_pure(a) for a in e.args if not isinstance(a, ast.IfExp)) and is_pure([a for a in e.args if isinstance(a, ast.IfExp)][0].test):
+            and all(is_pure(a) and not may_raise(a) for a in e.args if not isinstance(a, ast.IfExp)) and is_pure([a for a in e.args if isinstance(a, ast.IfExp)][0].test) \
+            and not may_raise(e.func):
         # f(x if c else y) is f(x) if c else f(y) when nothing else in the call has side effects
         k = [i for i, a in enumerate(e.args) if isinstance(a, ast.IfExp)][0]
         t = e.args[k]
@@ -2600,9 +2812,7 @@ def cx(e):
         a2 = ast.Call(func=e.func, args=e.args[:k] + [t.orelse] + e.args[k + 1:], keywords=[])
         return cx(ast.IfExp(test=t.test, body=a1, orelse=a2))
     if isinstance(e, ast.Call):
-        kws = [(k.arg or '**', cx(k.value)) for k in e.keywords]
-        if all(is_pure(k.value) and k.arg is not None for k in e.keywords):
-            kws = sorted(kws)
+        kws = [(k.arg or '**', cx(k.value)) for k in e.keywords]           # as written (the callee may keep their order)
         return f'{cx(e.func)}(' + ','.join([cx(a) for a in e.args] + [f'{k}={v}' for k, v in kws]) + ')'
     if isinstance(e, ast.IfExp):
         return f'(ifexp {cx(e.test)} {cx(e.body)} {cx(e.orelse)})'
@@ -2640,6 +2850,8 @@ def cx(e):
         return '(fstr ' + ' '.join(parts) + ')'
     if isinstance(e, ast.FormattedValue):
         return f'{{{cx(e.value)}!{e.conversion}:{cx(e.format_spec)}}}'
+    if isinstance(e, (ast.ListComp, ast.SetComp, ast.GeneratorExp, ast.DictComp)) and any(isinstance(x, ast.Lambda) for x in ast.walk(e)):
+        return '(comp ' + ast.dump(e) + ')'
     if isinstance(e, (ast.ListComp, ast.SetComp, ast.GeneratorExp, ast.DictComp)) and not getattr(e, '_kappa', False):
         # the variables a comprehension binds are its own: numbered by nesting depth and position, whatever they are called
         bound = []
@@ -2768,10 +2980,15 @@ def _atoms(cond, then, other, budget):
     return _mk_cond_leaf(cond, then, other)
 
 
+_RAISING_ATOMS = set()
+
+
 def _mk_cond_leaf(cond, then, other):
     c = cx(cond)
     if is_pure(cond):
         _PURE_ATOMS.add(c)
+    if may_raise(cond):
+        _RAISING_ATOMS.add(c)
     if isinstance(cond, ast.Name) and cond.id.startswith(MARK) and _NO_CLOSURES[0]:
         # a local truth value is True in one branch and False in the other: `not b`, `b and x` written there are folded
         t2, o2 = _assume_local(then, cond.id, True), _assume_local(other, cond.id, False)
@@ -2791,6 +3008,8 @@ def _assume_local(tree, mark, val):
     text = repr(tree)
     if neg not in text or mark not in _SIMPLE_STORES[0]:
         return tree
+    if mark not in _BOOL_MARKS[0] and mark in text.replace(neg, '').replace(f"'{mark}'", ''):
+        return tree         # a list / object tested for truth and used otherwise too may be changed in place in between
     if f"('{mark}'" in text or f"'aug', " in text and f"'{mark}'" in text:
         return tree
 
@@ -2816,7 +3035,8 @@ def _assume(tree, c, val):
             if t2 is not t or e2 is not e:
                 return tree[:i] + (t2 if t2 == e2 else (('if', a, t2, e2),))
             return tree
-        if node[0] == 'assign' and all(_re.fullmatch(r'[\w' + MARK + r'.]+', t_) and t_ not in c and not _aliased_in(t_, c) for t_ in node[1]) and _effect_free_text(node[2]):
+        if node[0] == 'assign' and all(_re.fullmatch(r'[\w' + MARK + r'.]+', t_) and t_ not in c and not _aliased_in(t_, c) and not _through_property(t_, c) for t_ in node[1]) \
+                and _effect_free_text(node[2]):
             # e.g. self.x = self.y between two tests of self.z; the test itself written as the value is its known truth value
             # (comparisons give truth values, DESIGN 8.9)
             if c.startswith(('(Eq ', '(Is ', '(In ', '(Lt ')) and 'ambda' not in node[2] and (c in node[2] or _neg_text(c) in node[2]):
@@ -2827,12 +3047,25 @@ def _assume(tree, c, val):
     return tree
 
 
+def _through_property(target, c):
+    """the target is (set through) a property, or the test reads a property of the same object: the assignment may change what
+    the test sees although the texts do not overlap"""
+    if '.' not in target:
+        return False
+    import re as _re
+    if target.split('.')[-1] in ALL_PROPS[0]:
+        return True
+    root = target.split('.')[0]
+    return any(f'{root}.' in c and _re.search(r'\.' + _re.escape(p_) + r'\b', c) for p_ in ALL_PROPS[0])
+
+
 def _aliased_in(target, c):
     """the assignment target (text) goes through a local that may be another name for something the test c reads"""
     root = target.split('.')[0].strip(MARK)
     for p, q in ALIASES[0]:
         for a, b in ((p, q), (q, p)):
-            if a == (root,) and ('.'.join(b) in c or '.'.join([MARK + b[0] + MARK] + list(b[1:])) in c):
+            b = (b[0].strip(MARK),) + tuple(b[1:])
+            if len(a) == 1 and a[0].strip(MARK) == root and ('.'.join(b) in c or '.'.join([MARK + b[0] + MARK] + list(b[1:])) in c):
                 return True
     return False
 
@@ -2862,10 +3095,10 @@ def _mk_if(c, then, other):
     text outside), and a side-effect-free test whose branches are identical is dropped"""
     if c in _PURE_ATOMS:
         then, other = _assume(then, c, True), _assume(other, c, False)
-    if c in _PURE_ATOMS and then == other:
+    if c in _PURE_ATOMS and c not in _RAISING_ATOMS and then == other:
         return then
     if c in _PURE_ATOMS and len(then) == 1 and len(other) == 1 and then[0][0] == 'if' and other[0][0] == 'if' and then[0][1] == other[0][1] \
-            and then[0][1] in _PURE_ATOMS and then[0][1] < c:
+            and then[0][1] in _PURE_ATOMS and then[0][1] < c and not (c in _RAISING_ATOMS and then[0][1] in _RAISING_ATOMS):
         b = then[0][1]
         return _mk_if(b, _mk_if(c, then[0][2], other[0][2]), _mk_if(c, then[0][3], other[0][3]))
     return (('if', c, then, other),)
@@ -2898,6 +3131,14 @@ def seq(stmts, k, budget):
         # what follows a try statement follows its else-part on success and each handler that falls through; written that
         # way `else:` clauses and statements placed after the try look the same
         rest = seq(stmts[1:], k, budget)
+        _falls = [h for h in st.handlers if not _always_leaves(h.body)]
+        _rt = repr(rest)
+        if _falls and ("('raise'" in _rt or 'exc_info' in _rt or 'format_exc' in _rt or 'print_exc' in _rt or 'exception(' in _rt
+                       or any(h.name and (MARK + h.name.strip(MARK) + MARK in _rt or h.name in _rt) for h in _falls)):
+            # after a handler has ended there is no active exception (a bare raise fails, a new exception has no context,
+            # the traceback is gone) and its `as` name is unbound: such a continuation is not the same inside the handler
+            hs0 = tuple((cx(h.type), h.name or '', seq(h.body, (), budget)) for h in st.handlers)
+            return (('try', seq(list(st.body), (), budget), hs0, seq(list(st.orelse), (), budget), ()),) + rest
         body, orelse = list(st.body), list(st.orelse)
         if body and (isinstance(body[-1], (ast.Continue, ast.Break)) or isinstance(body[-1], ast.Return) and (body[-1].value is None or isinstance(body[-1].value, (ast.Constant, ast.Name)))):
             # a final statement that cannot raise is not protected by the handlers: it belongs to the else-part
@@ -2948,8 +3189,9 @@ def seq(stmts, k, budget):
 
         def overwrites(br):
             # (an override that can fail would leave the default in place in one spelling and the old value in the other)
-            return bool(br) and br[0][0] == 'assign' and br[0][1] == (tgt,) and root not in br[0][2] and _effect_free_text(br[0][2]) and '[' not in br[0][2]
-        if tgt not in c and overwrites(then) != overwrites(other):
+            return bool(br) and br[0][0] == 'assign' and br[0][1] == (tgt,) and root not in br[0][2] and _effect_free_text(br[0][2]) and '[' not in br[0][2] \
+                and not any(h in br[0][2] for h in ('(Div ', '(FloorDiv ', '(Mod '))
+        if tgt not in c and c not in _RAISING_ATOMS and overwrites(then) != overwrites(other):
             node = ('assign', (tgt,), cx(st.value))
             budget[0] -= 1
             return (('if', c, then, (node,) + other),) if overwrites(then) else (('if', c, (node,) + then, other),)
@@ -2973,7 +3215,8 @@ def _bubble(tree):
     i = 0
     while i + 1 < len(out) and simple(out[i]) and simple(out[i + 1]):
         a, b = out[i][1][0], out[i + 1][1][0]
-        if b < a and not a.startswith(b) and not b.startswith(a):
+        if b < a and not a.startswith(b) and not b.startswith(a) and not _aliased_in(a, b) and not _aliased_in(b, a) \
+                and not any(x.split('.')[-1] in ALL_PROPS[0] for x in (a, b)):
             out[i], out[i + 1] = out[i + 1], out[i]
             i += 1
         else:
@@ -2991,7 +3234,9 @@ def _bubble_run(tree):
 
 _HANDLER_READS = [frozenset()]
 _TREE_SAFE = [frozenset()]
+_SET_LOCALS = [frozenset()]         # marked locals every plain assignment of which binds set() / a set display / a set comprehension
 _SIMPLE_STORES = [frozenset()]      # marked locals bound only by plain `name = value` statements
+_BOOL_MARKS = [frozenset()]         # ... whose values are all truth values (comparisons, not, isinstance, ...)
 
 
 def tree_safe_locals(func):
@@ -3155,7 +3400,7 @@ def _cstmt(st, budget):
     if isinstance(st, ast.Assign):
         return ('assign', tuple(cx(t) for t in st.targets), cx(st.value))
     if isinstance(st, ast.AugAssign) and isinstance(st.op, ast.BitOr) and isinstance(st.target, ast.Name) and isinstance(st.value, ast.Call) \
-            and isinstance(st.value.func, ast.Name) and st.value.func.id == 'set' and len(st.value.args) == 1 and not st.value.keywords:
+            and isinstance(st.value.func, ast.Name) and st.value.func.id == 'set' and len(st.value.args) == 1 and not st.value.keywords and st.target.id in _SET_LOCALS[0]:
         # s |= set(E) on a local is s.update(E)
         return ('expr', f'{cx(st.target)}.update({cx(st.value.args[0])})')
     if isinstance(st, ast.AugAssign):
@@ -3273,12 +3518,26 @@ def module_bad_attrs(tree):
                     if isinstance(t, (ast.Tuple, ast.List)) or v is None or not _is_container_value(v):
                         bad.add(x.attr)
         if isinstance(n, ast.ClassDef):
-            for st in n.body:
-                tg = st.targets if isinstance(st, ast.Assign) else [st.target] if isinstance(st, ast.AnnAssign) and st.value is not None else []
-                for t in tg:
-                    for x in ast.walk(t):
-                        if isinstance(x, ast.Name) and not _is_container_value(st.value):
-                            bad.add(x.id)
+            def class_level(stmts):
+                for st in stmts:
+                    if isinstance(st, (ast.FunctionDef, ast.AsyncFunctionDef, ast.ClassDef)):
+                        continue
+                    if isinstance(st, ast.AnnAssign) and st.value is None:
+                        for x in ast.walk(st.target):        # a dataclass field: bound by the constructor to whatever is passed
+                            if isinstance(x, ast.Name):
+                                bad.add(x.id)
+                    tg = st.targets if isinstance(st, ast.Assign) else [st.target] if isinstance(st, ast.AnnAssign) and st.value is not None else []
+                    for t in tg:
+                        for x in ast.walk(t):
+                            if isinstance(x, ast.Name) and (isinstance(t, (ast.Tuple, ast.List)) or not _is_container_value(st.value)):
+                                bad.add(x.id)
+                    for field in ('body', 'orelse', 'finalbody'):
+                        sub = getattr(st, field, None)
+                        if isinstance(sub, list) and sub and isinstance(sub[0], ast.stmt):
+                            class_level(sub)
+                    for h_ in getattr(st, 'handlers', []):
+                        class_level(h_.body)
+            class_level(n.body)
     return bad
 
 
@@ -3323,13 +3582,30 @@ def module_all_properties(tree):
 def module_bound_names(tree):
     """names bound at module level (functions, classes, assignments, imports)"""
     out = set()
-    for st in tree.body:
-        if isinstance(st, (ast.FunctionDef, ast.AsyncFunctionDef, ast.ClassDef)):
-            out.add(st.name)
-        elif isinstance(st, (ast.Import, ast.ImportFrom)):
-            out |= {(a.asname or a.name).split('.')[0] for a in st.names}
-        else:
-            out |= {n.id for n in ast.walk(st) if isinstance(n, ast.Name) and isinstance(n.ctx, (ast.Store, ast.Del))}
+
+    def rec(stmts):
+        for st in stmts:
+            if isinstance(st, (ast.FunctionDef, ast.AsyncFunctionDef, ast.ClassDef)):
+                out.add(st.name)
+                continue
+            if isinstance(st, (ast.Import, ast.ImportFrom)):
+                out.update((a.asname or a.name).split('.')[0] for a in st.names)
+                continue
+            for field in ('body', 'orelse', 'finalbody'):
+                sub = getattr(st, field, None)
+                if isinstance(sub, list) and sub and isinstance(sub[0], ast.stmt):
+                    rec(sub)
+            for h_ in getattr(st, 'handlers', []):
+                rec(h_.body)
+            for n in ast.walk(st):
+                if isinstance(n, ast.Name) and isinstance(n.ctx, (ast.Store, ast.Del)):
+                    out.add(n.id)
+                    break
+            out.update(n.id for e_ in _stmt_exprs(st) or [] for n in ast.walk(e_) if isinstance(n, ast.Name) and isinstance(n.ctx, (ast.Store, ast.Del)))
+            if isinstance(st, (ast.Assign, ast.AugAssign, ast.AnnAssign, ast.For, ast.With)):
+                out.update(n.id for n in ast.walk(st) if isinstance(n, ast.Name) and isinstance(n.ctx, (ast.Store, ast.Del)))
+    rec(tree.body)
+    out |= {x for n in ast.walk(tree) if isinstance(n, ast.Global) for x in n.names}
     return out
 
 
@@ -3352,10 +3628,12 @@ def module_properties(tree):
                     eh = expression_helper(g2, True)
                     if eh is not None and eh[0] == []:
                         found[g.name] = (g.args.args[0].arg, eh[1])
-            elif isinstance(g, (ast.Assign, ast.AnnAssign)):
-                for t in (g.targets if isinstance(g, ast.Assign) else [g.target]):
-                    if isinstance(t, ast.Name):
-                        count[t.id] = count.get(t.id, 0) + 1
+            else:
+                for x in ast.walk(g):
+                    if isinstance(x, ast.Name) and isinstance(x.ctx, (ast.Store, ast.Del)):
+                        count[x.id] = count.get(x.id, 0) + 1
+                    elif isinstance(x, (ast.FunctionDef, ast.AsyncFunctionDef)):
+                        count[x.name] = count.get(x.name, 0) + 1
     return {k: v for k, v in found.items() if count.get(k) == 1 and k not in assigned}
 
 
@@ -3382,6 +3660,10 @@ class _PropInline(ast.NodeTransformer):
             selfname, expr = self.props[node.attr]
             if (_free_names(expr) - {selfname}) & self.bound or any(isinstance(x, _COMPS + (ast.Lambda,)) for x in ast.walk(expr)):
                 return node         # a free name of the property body would be captured by a name the function binds
+            if selfname not in _free_names(expr) and may_raise(node.value):
+                return node         # the receiver would no longer be evaluated
+            if any(isinstance(x, ast.Attribute) and x.attr.startswith('__') and not x.attr.endswith('__') for x in ast.walk(expr)):
+                return node         # private names are spelled differently outside their class
             self.depth += 1
             out = _Subst({selfname: node.value}).visit(copy.deepcopy(expr))
             out = self.visit(out)
@@ -3442,7 +3724,8 @@ _CLASS = [None]
 _NO_CLOSURES = [False, ()]
 
 
-BUILTIN_SENSITIVE = PURE_FUNCS | CONSUMERS | {'isinstance', 'hasattr', 'bool', 'callable', 'issubclass', 'all', 'any', 'len', 'super', 'iter', 'next', 'map',
+STDLIB_ROOTS = {'struct', 're', 'os'}       # module names the receiver rules rely on: must not be rebound inside the function
+BUILTIN_SENSITIVE = PURE_FUNCS | CONSUMERS | {'bin', 'oct', 'ascii', 'hex', 'chr', 'ord', 'eval', 'exec', 'compile', 'getattr', 'isinstance', 'hasattr', 'bool', 'callable', 'issubclass', 'all', 'any', 'len', 'super', 'iter', 'next', 'map',
                                               'filter', 'print', 'open', 'property', 'staticmethod', 'classmethod', 'setattr', 'delattr', 'vars', 'globals', 'locals'}
 
 
@@ -3474,16 +3757,21 @@ def _alias_sources(v):
         return out
     if isinstance(v, ast.NamedExpr):
         return _alias_sources(v.value)
+    if isinstance(v, ast.BinOp) and isinstance(v.op, (ast.Add, ast.BitOr)):
+        return _alias_sources(v.left) | _alias_sources(v.right)
     if isinstance(v, (ast.Tuple, ast.List)):
         out = set()
         for x in v.elts:
             out |= _alias_sources(x.value if isinstance(x, ast.Starred) else x)
         return out
-    if isinstance(v, ast.Call) and isinstance(v.func, ast.Name) and v.func.id in ('enumerate', 'zip', 'reversed', 'iter', 'sorted', 'list', 'tuple'):
+    if isinstance(v, ast.Call) and isinstance(v.func, ast.Name) and v.func.id in ('enumerate', 'zip', 'reversed', 'iter', 'sorted', 'list', 'tuple', 'next', 'getattr'):
         out = set()
         for x in v.args:
             out |= _alias_sources(x)
         return out
+    if isinstance(v, ast.Call) and isinstance(v.func, ast.Attribute):
+        # what a method hands out (d.values(), d.get(k), stack.pop(), self.current()) may be part of its receiver
+        return _alias_sources(v.func.value)
     return set()
 
 
@@ -3543,8 +3831,12 @@ def canonical(func, helpers=None, consts=None, sized=None, cls_name=None, props=
         _bound |= {n.name for n in ast.walk(func) if isinstance(n, ast.ExceptHandler) and n.name}
         _bound |= {n.name for n in ast.walk(func) if n is not func and isinstance(n, (ast.FunctionDef, ast.AsyncFunctionDef, ast.ClassDef))}
         _bound |= {(a.asname or a.name).split('.')[0] for n in ast.walk(func) if isinstance(n, (ast.Import, ast.ImportFrom)) for a in n.names}
-        if _bound & BUILTIN_SENSITIVE:
+        if _bound & (BUILTIN_SENSITIVE | STDLIB_ROOTS):
             raise NotCanonicalisable('a builtin name is rebound')
+        if any(isinstance(n, ast.Name) and n.id in ('locals', 'vars', 'eval', 'exec', 'globals', 'dir') for n in ast.walk(func)):
+            raise NotCanonicalisable('the locals are visible by name')
+        if any(n is not func and isinstance(n, (ast.FunctionDef, ast.AsyncFunctionDef, ast.ClassDef)) for n in ast.walk(func)):
+            raise NotCanonicalisable('a nested function may change the locals it captures whenever it is called')
         mod_shadow = frozenset(ctx.get('module_bound', ())) & BUILTIN_SENSITIVE
         if mod_shadow and any(isinstance(n, ast.Name) and n.id in mod_shadow for n in ast.walk(func)):
             raise NotCanonicalisable('a builtin name is rebound by the module')
@@ -3568,6 +3860,28 @@ def canonical(func, helpers=None, consts=None, sized=None, cls_name=None, props=
                 _good[n.targets[0].id] = _good.get(n.targets[0].id, 0) + 1
         NOT_ITERATORS[0] = frozenset(k for k, v in _good.items() if v == len(_stores.get(k, [])) and k not in _params(func))
         ALIASES[0] = function_aliases(func)
+        _nt, _ntc = set(), set()
+        for n in ast.walk(func):
+            if isinstance(n, ast.Compare) and any(isinstance(o, (ast.Is, ast.IsNot, ast.Eq, ast.NotEq)) for o in n.ops):
+                ops = [n.left] + list(n.comparators)
+                if any(isinstance(o, ast.Constant) and o.value is None for o in ops):
+                    _nt |= {c[0] for o in ops if isinstance(o, (ast.Name, ast.Attribute)) for c in [chain(o)] if c}
+                    _ntc |= {c[:2] for o in ops if isinstance(o, ast.Attribute) for c in [chain(o)] if c and len(c) >= 2}
+            tst = n.test if isinstance(n, (ast.If, ast.While, ast.IfExp)) else n.operand if isinstance(n, ast.UnaryOp) and isinstance(n.op, ast.Not) else None
+            for o in ([tst] if tst is not None else []) + (list(n.values) if isinstance(n, ast.BoolOp) else []):
+                if isinstance(o, ast.Name):
+                    _nt.add(o.id)
+        _saved_nt = (NONE_TESTED[0], ATTR_ERRORS_CAUGHT[0], LAMBDA_WRITES[0], NONE_TESTED_CHAINS[0])
+        NONE_TESTED[0] = frozenset(_nt - {'self'})
+        NONE_TESTED_CHAINS[0] = frozenset(_ntc)
+        ATTR_ERRORS_CAUGHT[0] = any(isinstance(h, ast.ExceptHandler) and (h.type is None or any(isinstance(x, ast.Name) and x.id in ('AttributeError', 'Exception', 'BaseException')
+                                                                                              for x in ast.walk(h.type))) for h in ast.walk(func))
+        _lw = set()
+        for n in ast.walk(func):
+            if isinstance(n, ast.Lambda):
+                LAMBDA_WRITES[0] = frozenset()
+                _lw |= written_chains(ast.Expr(value=n.body))
+        LAMBDA_WRITES[0] = frozenset(_lw)
         _SIZED[0] = frozenset(sized or ()) if sized is not None else _SIZED[0]
         _CLASS[0] = cls_name if cls_name is not None else _CLASS[0]
         f = copy.deepcopy(func)
@@ -3582,13 +3896,19 @@ def canonical(func, helpers=None, consts=None, sized=None, cls_name=None, props=
                     _block[_i] = ast.copy_location(ast.Assign(targets=[_st.target], value=_st.value) if _st.value is not None else ast.Pass(), _st)
                     ast.fix_missing_locations(_block[_i])
         if helpers:
+            if mod_shadow and any(isinstance(n, ast.Name) and n.id in mod_shadow for h_ in helpers.values() for n in ast.walk(h_[0])):
+                raise NotCanonicalisable('a builtin name is rebound by the module (helper)')
             for _ in range(3):
                 usable = {k: v for k, v in helpers.items() if _simple_helper(v[0])}
+                ALIASES[0] = function_aliases(f)
                 x = inline_expression_helpers(f, helpers)
                 hoist_helper_calls(f, usable, counter)
                 y = inline_helpers(f, usable, counter)
                 if not (x or y):
                     break
+            # what was pasted brings its own names: iterator / None-test / alias tables are taken again over the result
+            ALIASES[0] = function_aliases(f)
+            NOT_ITERATORS[0] = frozenset()
         if consts:
             _Subst({k: v for k, v in consts.items() if k not in _bound}).visit(f)
         if props:
@@ -3596,13 +3916,20 @@ def canonical(func, helpers=None, consts=None, sized=None, cls_name=None, props=
             f = _PropInline({k: v for k, v in props.items() if k != own}, _bound).visit(f)
         _ExprRewrite().visit(f)
         ast.fix_missing_locations(f)
+        def _ra():
+            ALIASES[0] = function_aliases(f)        # names change from pass to pass (webs, pasted helpers)
+            return False
         for _ in range(8):
             a = _split_ifexp(f)
             d = ssa_split(f, counter)
             d = split_webs(f, counter) or d
+            _ra()
             b = copy_propagate(f)
+            _ra()
             c = inline_temps(f)
+            _ra()
             e = inline_next_use(f)
+            _ra()
             g = drop_dead_locals(f)
             h = loops_to_comprehensions(f)
             h = loops_to_any(f) or h
@@ -3618,6 +3945,7 @@ def canonical(func, helpers=None, consts=None, sized=None, cls_name=None, props=
                 break
         _ExprRewrite().visit(f)         # once more: values that reached their place of use by substitution
         ast.fix_missing_locations(f)
+        _ra()
         if sink_constant_inits(f):
             for _ in range(3):
                 if not (inline_next_use(f) | inline_temps(f)):
@@ -3626,13 +3954,19 @@ def canonical(func, helpers=None, consts=None, sized=None, cls_name=None, props=
         _, stores, _ = _defs_and_uses(f)
         _comp_targets = {id(x) for c_ in ast.walk(f) if isinstance(c_, _COMPS) for g_ in c_.generators for x in ast.walk(g_.target)}
         # (a comprehension's variables are its own: a read of the same spelling outside it is a module-level name)
-        local_names = {n for n, nodes in stores.items() if n not in params and not all(id(x) in _comp_targets for x in nodes)}
+        _pinned = {x.id for n in ast.walk(f) if n is not f and isinstance(n, _NESTED) for x in ast.walk(n) if isinstance(x, ast.Name)}
+        local_names = {n for n, nodes in stores.items() if n not in params and n not in _pinned and not all(id(x) in _comp_targets for x in nodes)}
         # nested scopes keep their spelling (their text is compared as written)
         _Rename({n: f'{MARK}{n}{MARK}' for n in local_names}).visit(f)
+        _ra()
         sort_independent_runs(f)
-        _NO_CLOSURES[0] = not any(isinstance(n, (ast.FunctionDef, ast.AsyncFunctionDef, ast.Lambda, ast.ClassDef, ast.Global, ast.Nonlocal)) for n in ast.walk(f) if n is not f)
+        _imm = {id(c_.args[0]) for c_ in ast.walk(f) if isinstance(c_, ast.Call) and len(c_.args) == 1 and not c_.keywords and isinstance(c_.args[0], ast.GeneratorExp)
+                and isinstance(c_.func, ast.Name) and c_.func.id in _CONSUMERS}
+        _NO_CLOSURES[0] = not any(isinstance(n, (ast.FunctionDef, ast.AsyncFunctionDef, ast.Lambda, ast.ClassDef, ast.Global, ast.Nonlocal)) or isinstance(n, ast.GeneratorExp) and id(n) not in _imm
+                                  for n in ast.walk(f) if n is not f)
         _NO_CLOSURES[1] = tuple(params)
         _PURE_ATOMS.clear()
+        _RAISING_ATOMS.clear()
         hr = set()
         for t_ in ast.walk(f):
             if isinstance(t_, ast.Try):
@@ -3655,6 +3989,17 @@ def canonical(func, helpers=None, consts=None, sized=None, cls_name=None, props=
             elif isinstance(n, ast.Assign) and len(n.targets) == 1 and isinstance(n.targets[0], ast.Name):
                 _as[n.targets[0].id] = _as.get(n.targets[0].id, 0) + 1
         _SIMPLE_STORES[0] = frozenset(k for k, v in _st.items() if _as.get(k, 0) == v)
+        _bm = {}
+        for n in ast.walk(f):
+            if isinstance(n, ast.Assign) and len(n.targets) == 1 and isinstance(n.targets[0], ast.Name):
+                _bm.setdefault(n.targets[0].id, []).append(_is_boolean(n.value))
+        _BOOL_MARKS[0] = frozenset(k for k, v in _bm.items() if all(v) and k in _SIMPLE_STORES[0])
+        _sl = {}
+        for n in ast.walk(f):
+            if isinstance(n, ast.Assign) and len(n.targets) == 1 and isinstance(n.targets[0], ast.Name):
+                v_ = n.value
+                _sl.setdefault(n.targets[0].id, []).append(isinstance(v_, (ast.Set, ast.SetComp)) or isinstance(v_, ast.Call) and isinstance(v_.func, ast.Name) and v_.func.id == 'set')
+        _SET_LOCALS[0] = frozenset(k for k, v in _sl.items() if all(v) and k in _SIMPLE_STORES[0])
         tree = seq(f.body, FUNC_END, [60000])
         text = repr(tree)
         seen = {}
@@ -3676,5 +4021,6 @@ def canonical(func, helpers=None, consts=None, sized=None, cls_name=None, props=
             _SEQS[0] = _saved_seqs
             _OTHER_METHODS[0] = _saved_om
             MUTABLE_GLOBALS[0] = _saved_mg
+            NONE_TESTED[0], ATTR_ERRORS_CAUGHT[0], LAMBDA_WRITES[0], NONE_TESTED_CHAINS[0] = _saved_nt
         except NameError:
             pass
